@@ -284,6 +284,7 @@ func genClient(t *rapid.T, cfg *Config, o genOpts) Client {
 		ProtoNames:   rapid.Bool().Draw(t, "p_proto_names"),
 	}
 	c.Compression = rapid.SampledFrom([]string{"", "", CompGzip, CompGzip, CompDeflate}).Draw(t, "compression")
+	c.Identity = c.Compression == "" && rapid.IntRange(0, 5).Draw(t, "identity_header") == 0
 	c.Accept = append([]string(nil), rapid.SampledFrom([][]string{nil, {CompGzip}, {CompDeflate, CompGzip}, {CompGzip, "br"}, {"identity"}, {"zstd"}}).Draw(t, "accept")...)
 	nmsg := 1
 	if m.cstream && c.Form != FormREST {
